@@ -169,9 +169,12 @@ def judge(ck, c, ctx, s0, shape, isrec, r, api, isread, relax):
             ck.violation(('rc', ('get ' if isread else 'put ') + api, cause), text, '%s: %s returned %d, documented %s' % (c.name, desc, rc, sorted(exp))); return
         cur = bytes.fromhex(r.r(0, ls).get('hex', ''))
         others = set()
-        if rc != 0 or isread:
+        idx0 = D.region_indices([None] + shape[1:] if isrec else shape, st, ct_eff, sd if has_stride else None) if rc == 0 and not isread else None
+        if rc != 0 or isread or not idx0:
+            # rejected, read and zero-length requests (also "count 0 in an inner dimension" on a record variable): not one byte,
+            # the record count in the header included
             if any(x != y for i, (x, y) in enumerate(zip(cur, prev)) if i not in others) or len(cur) != len(prev):
-                ck.violation(('file_changed', ('get ' if isread else 'put ') + api, 'rejected or read request'), text, '%s: %s (rc=%d) changed the file' % (c.name, desc, rc)); return
+                ck.violation(('file_changed', ('get ' if isread else 'put ') + api, 'rejected or read request' if (rc != 0 or isread) else 'zero-length request'), text, '%s: %s (rc=%d) changed the file (first differing byte %s)' % (c.name, desc, rc, next((i for i, (x, y) in enumerate(zip(cur, prev)) if x != y), len(prev)))); return
         else:
             # accepted write: only bytes of the addressed elements of the target (+ numrecs field) may differ
             idx = D.region_indices([None] + shape[1:] if isrec else shape, st, ct_eff, sd if has_stride else None)
